@@ -1369,3 +1369,195 @@ def replay(rep):  # noqa: F811
         print('replay: %s' % ('violation reproduced on the real code: %s' % w2['why'] if w2 else 'not reproduced'))
         return 1 if w2 else 0
     return _rp16(rep)
+
+
+# ---- digits (C05): printed numerals parsed back and compared with the raw rational (bounded stand-in / replay) ----
+_DIG_VALUES = ['1/7', '22/7', '1/3', '1/3937', '1/1000000007', '123456789/1000', '1e20', '1e-12', '0.1', '255', '-5/3', '1/97', '1234567.891', '2^70', '1/2^20', '10.5', '100.5',
+               '999999999.5', '0.000000001', '1/6', '7/12', '-0.05', '3', '1000000', '1/81', '123/999', '2/3 * 1e-5']
+_DIG_MODES = ['', 'digits 3', 'digits 20', 'digits 0', 'sci', 'eng', 'frac']
+_DIG_BASES = [10, 2, 7, 16, 36]
+
+
+def _digval(c):
+    if '0' <= c <= '9':
+        return ord(c) - 48
+    if 'a' <= c <= 'z':
+        return ord(c) - 87
+    return None
+
+
+def _parse_plain(t, base):
+    """-> (value Fraction, ulp Fraction, period_claim ok) of a numeral without exponent; raises ValueError"""
+    neg = t.startswith('-')
+    if neg:
+        t = t[1:]
+    rec = None
+    if '[' in t:
+        head, rest = t.split('[', 1)
+        if not rest.endswith(']...'):
+            raise ValueError('bad recurring block')
+        block = rest[:-4]
+        claimed = None
+        if ', period ' in block:
+            block, p = block.split(', period ')
+            claimed = int(p)
+        rec = block
+        if claimed is not None and claimed != len(block):
+            raise ValueError('stated period %d but the block has %d digits' % (claimed, len(block)))
+        t = head
+    ip, _, fp = t.partition('.')
+    val = _F(0)
+    for c in ip:
+        d = _digval(c)
+        if d is None or d >= base:
+            raise ValueError('bad digit %r' % c)
+        val = val * base + d
+    scale = _F(1)
+    for c in fp:
+        d = _digval(c)
+        if d is None or d >= base:
+            raise ValueError('bad digit %r' % c)
+        scale /= base
+        val += d * scale
+    if rec is not None:
+        if not rec:
+            raise ValueError('empty recurring block')
+        r = 0
+        for c in rec:
+            d = _digval(c)
+            if d is None or d >= base:
+                raise ValueError('bad digit %r' % c)
+            r = r * base + d
+        val += _F(r, base ** len(rec) - 1) * scale
+    return (-val if neg else val), scale
+
+
+def _parse_numeral(t, base, frac_mode, sci_mode=False):
+    t = t.strip()
+    if frac_mode and all(ch in '-0123456789/' for ch in t):
+        n, _, d = t.partition('/')
+        return _F(int(n), int(d) if d else 1), _F(0)
+    import re as _re2
+    if 'e' in t and (base <= 14 or sci_mode) and '.' in t.rsplit('e', 1)[0] and _re2.match(r'^-?[0-9]+$', t.rsplit('e', 1)[1]):
+        m, ex = t.rsplit('e', 1)
+        v, ulp = _parse_plain(m, base)
+        k = int(ex)
+        f = _F(base) ** k
+        return v * f, ulp * f
+    try:
+        return _parse_plain(t, base)
+    except ValueError:
+        if not sci_mode and 'e' in t:
+            return _parse_numeral(t, base, frac_mode, True)
+        raise
+
+
+def _digits_witness():
+    if build_core() != 0:
+        return None
+    qs = []
+    for v in _DIG_VALUES:
+        for m in _DIG_MODES:
+            for b in _DIG_BASES:
+                if b == 10:
+                    conv = m
+                else:
+                    conv = (m + ' base %d' % b).strip()
+                qs.append((v, m, b, ('%s -> %s' % (v, conv)) if conv else v))
+    from concurrent.futures import ThreadPoolExecutor as _TPE
+
+    def one(item):
+        v, m, b, line = item
+        (ln, text, raw) = run_queries([line])[0]
+        nl = [l for l in text.splitlines() if l.startswith('NUMERAL ')]
+        if text.startswith('PANIC') or text == 'TIMEOUT':
+            return (line, 'a numeral', text, 'the evaluator %s' % text.splitlines()[0][:120])
+        if not nl or raw is None or raw.startswith('float'):
+            return None
+        n, d = raw.split(' | ')[0].strip().split('/')
+        x = _F(int(n), int(d))
+        import re as _re
+        mm = _re.match(r'NUMERAL exact=(None|Some\("(.*?)"\)) approx=(None|Some\("(.*?)"\))$', nl[0])
+        if not mm:
+            return None
+        ex, ap = mm.group(2), mm.group(4)
+        first = text.splitlines()[0]
+        if (ex is None) != first.startswith('approx.') and not first.startswith('approx.') == (ap is not None and ex is None):
+            return (line, '`approx.` exactly when the numeral is not exact', text, 'marker and exactness disagree: %r' % first[:80])
+        def readings(t, fm):
+            out = []
+            errs = []
+            for sci in ((False, True) if (b > 14 and 'e' in t) else (m in ('sci', 'eng'),)):
+                try:
+                    if sci and b > 14 and 'e' in t:
+                        mt, exs = t.rsplit('e', 1)
+                        v0, u0 = _parse_plain(mt, b)
+                        f = _F(b) ** int(exs)
+                        out.append((v0 * f, u0 * f))
+                    else:
+                        out.append(_parse_numeral(t, b, fm, sci))
+                except ValueError as e:
+                    errs.append(str(e))
+            if not out:
+                raise ValueError('; '.join(errs))
+            return out
+        try:
+            if ex is not None:
+                rs = readings(ex, m == 'frac' or '/' in ex)
+                if not any(val == x for val, ulp in rs):
+                    return (line, 'an exact numeral denoting %s' % x, text, 'the numeral %s is marked exact but denotes %s, the value is %s' % (ex, rs[0][0], x))
+            if ap is not None:
+                if '[' in ap:
+                    return (line, 'no recurring block on an approximate numeral', text, 'approximate numeral %s carries a recurring block' % ap)
+                rs = readings(ap, False)
+                if not any((abs(val) <= abs(x) < abs(val) + ulp) and not (x != 0 and val != 0 and (val < 0) != (x < 0)) for val, ulp in rs):
+                    val, ulp = rs[0]
+                    return (line, 'a truncation of %s within one unit of the last digit' % x, text, 'the approximate numeral %s denotes %s; the value %s is not within [v, v + %s)' % (ap, val, x, ulp))
+        except ValueError as e:
+            return (line, 'a well-formed numeral', text, 'cannot read the numeral: %s' % e)
+        return None
+    with _TPE(max_workers=12) as exq:
+        for r in exq.map(one, qs):
+            if r:
+                return {'replayer': 'digits', 'input': {'query': r[0], 'expected': r[1]}, 'output': r[2], 'why': r[3], 'cmd': '%s %r' % (QUERY_BIN, r[0])}
+    return None
+
+
+_sf17 = search_family
+
+
+def search_family(fam, prop):  # noqa: F811
+    if fam == 'digits':
+        return _digits_witness()
+    return _sf17(fam, prop)
+
+
+_fw18 = find_witness
+
+
+def find_witness(o, rep):  # noqa: F811
+    if o.get('unit') == 'digits' or rep.get('property') == 'C05':
+        w = _digits_witness()
+        if w:
+            return w
+    return _fw18(o, rep)
+
+
+_rp18 = replay
+
+
+def replay(rep):  # noqa: F811
+    w = rep.get('replay') or {}
+    if w.get('replayer') == 'digits':
+        if build_core() != 0:
+            return 0
+        i = rep['input']
+        (ln, text, raw) = run_queries([i['query']])[0]
+        print('> ' + i['query'])
+        print(text)
+        print('expected: ' + i['expected'])
+        w2 = _digits_witness()
+        bad = bool(w2 and w2['input']['query'] == i['query'])
+        print('replay: %s' % ('violation reproduced on the real code' if bad else 'not reproduced'))
+        return 1 if bad else 0
+    return _rp18(rep)
